@@ -188,6 +188,7 @@ structure D where
   sval : Nat := 0
   sdom : Bool := true     -- the specification state is inside its domain (value < end)
   prevDesc : String := "after=[reset]"
+  histBits : Array (List Bool) := #[]    -- input stream of a registered (pipelined) primitive
   -- statistics
   cases : Nat := 0
   ops : Nat := 0
@@ -272,8 +273,38 @@ def stepSeq (d : D) (toks : List String) : IO D := do
       let o2 := counterStep d.cfg base ⟨inc, dec, ld, lv, em1⟩
       let snext := Spec.wrapStep E base (inc || auto) (dec && !auto) ld lv
       let desc := s!"after=[value={fmt w base} inc={i} dec={dd} load={l} lv={lv} end={ev}]"
-      return { d with mval := o2.next, sval := snext, sdom := decide (base < E) || ld && decide (lv < E), prevDesc := desc }
+      return { d with mval := o2.next, sval := snext, sdom := if ld then decide (lv < E) else decide (base < E), prevDesc := desc }
   | _ => d.diff s!"unparsed sequential line {toks}"
+
+/-- registered priorityEncoderTree: one input word per clock cycle -/
+def stepTreeReg (d : D) (toks : List String) : IO D := do
+  let (ins, outs) := splitIO toks
+  match d.params, ins with
+  | [n, bps, np], [a] =>
+    let bits := bitsOf (parseBits a)
+    let hist := d.histBits.push bits
+    let t := hist.size - 1
+    let mut d := { d with histBits := hist }
+    if nextPow2 ((n + 2 ^ bps - 1) / 2 ^ bps) != np then return (← d.diff s!"nextPow2 model={nextPow2 ((n + 2 ^ bps - 1) / 2 ^ bps)} impl={np}")
+    let lmax := peTreeDepth bps true (n + 1) n
+    let lmin := peTreeDepth bps false (n + 1) n
+    if t < lmax then return d              -- registers not yet loaded on every path
+    match peTreeReg bps (n + 1) (fun s => hist.getD s []) t with
+    | none => d.diff s!"t={t} model=rejects impl={outs}"
+    | some o =>
+      let mOut := [fmtO o.w o.v, fmtB o.valid]
+      if mOut != outs then d ← d.diff s!"t={t} in={a} model={mOut} impl={outs}"
+      -- definition: a pipelined primitive has ONE latency L with out(t+L) = f(in(t)); L = number of register levels
+      let src := hist.getD (t - lmax) []
+      let low := Spec.lowestSet src
+      let expV := fmtB low.isSome
+      let ok := match outs with
+        | [r, v] => v == expV && (match low with | some i => r == fmt o.w i | none => true)
+        | _ => false
+      if !ok then
+        d ← d.fail s!"t={t} latency={lmax} shortest-path={lmin}{if lmin != lmax then " unbalanced-latency" else ""} in(t-latency)={fmt n (toNat src)} spec=[{(low.map (fmt o.w)).getD "*"}, {expV}] impl={outs}"
+      return d
+  | _, _ => d.diff s!"unparsed petreereg line {toks}"
 
 def stepV (d : D) (toks : List String) : IO D := do
   let (ins, outs) := splitIO toks
@@ -310,7 +341,7 @@ partial def loop (h : IO.FS.Stream) (d : D) : IO D := do
     let reset := params.getD 1 0
     loop h { d with caseId := k, prim := prim, params := params, header := s!"prim={prim} params={params}",
                     reportedDiff := false, reportedFail := false, sawErr := false, cases := d.cases + 1,
-                    cfg := cfg, mval := reset % 2 ^ cfg.w, sval := reset % 2 ^ cfg.w, sdom := true, prevDesc := "after=[reset]",
+                    cfg := cfg, mval := reset % 2 ^ cfg.w, sval := reset % 2 ^ cfg.w, sdom := true, prevDesc := "after=[reset]", histBits := #[],
                     whist := bump d.whist (wclass (params.getD 0 0)) }
   | ["end"] => loop h d
   | ["width", w] =>
@@ -324,7 +355,7 @@ partial def loop (h : IO.FS.Stream) (d : D) : IO D := do
     let d ← stepV d rest
     loop h { d with ops := d.ops + 1, hist := bump d.hist d.prim }
   | "s" :: rest =>
-    let d ← stepSeq d rest
+    let d ← if d.prim == "petreereg" then stepTreeReg d rest else stepSeq d rest
     loop h { d with ops := d.ops + 1, hist := bump d.hist d.prim }
   | _ => loop h (← d.diff s!"unparsed line {line.trimAscii.toString}")
 
